@@ -136,7 +136,7 @@ func runScript(sc Script) outcome {
 		if a.Cancel {
 			cancelled = true
 			cancel()
-			poll(2 * time.Second)
+			poll(10 * time.Second)
 			continue
 		}
 		commanded[a.I] = true
@@ -151,11 +151,11 @@ func runScript(sc Script) outcome {
 				time.Sleep(200 * time.Microsecond)
 			}
 		case a.Ok:
-			poll(2 * time.Second)
+			poll(10 * time.Second)
 		default:
 			fails++
 			if fails == n {
-				poll(2 * time.Second)
+				poll(10 * time.Second)
 			} else {
 				poll(300 * time.Microsecond) // the failure is received by connect; nothing observable, and no observable depends on when
 			}
@@ -245,7 +245,7 @@ func snapshot(conns []*fakeConn, mu *sync.Mutex) []int32 {
 }
 
 func waitClosed(conns []*fakeConn, mu *sync.Mutex, i int) {
-	dl := time.Now().Add(2 * time.Second)
+	dl := time.Now().Add(10 * time.Second)
 	for time.Now().Before(dl) {
 		mu.Lock()
 		c := conns[i]
@@ -352,6 +352,9 @@ func enumerate(n int, withCancel bool, f func(Script)) {
 func main() {
 	c := hx.Start("C42", "Run.Check_C42", 300)
 	one := func(kind string, sc Script) {
+		if len(c.Obs.Violations) >= 25 {
+			return // enough evidence; a broken resolver would otherwise cost a long wait per script
+		}
 		o := runScript(sc)
 		c.Obs.Evaluations++
 		c.Count(fmt.Sprintf("%s:n=%d:acts=%d", kind, sc.N, len(sc.Acts)))
